@@ -121,11 +121,37 @@ theorem fill_eq_nil {width : Nat} {l : List Str} (h : fill width l = []) : l = [
     obtain ⟨line, hl, _⟩ := fill_covers (width := width) (l := w :: ws) (w := w) List.mem_cons_self
     rw [h] at hl; cases hl
 
+/-- what CAP REQ lines do to the server's idea of the negotiation: from a client that is not registered yet
+they suspend the registration again -/
+def reopen (v : View) (lines : List (List Str)) : View :=
+  if lines.isEmpty then v
+  else { v with ended := v.ended && v.stage != 0, reopened := v.reopened || (v.ended && v.stage == 0) }
+
 theorem fold_capReq (lines : List (List Str)) (v : View) :
-    (lines.map Out.capReq).foldl seeOut v = { v with reqs := v.reqs ++ lines } := by
+    (lines.map Out.capReq).foldl seeOut v = { reopen v lines with reqs := v.reqs ++ lines } := by
   induction lines generalizing v with
-  | nil => simp
-  | cons l ls ih => simp only [List.map_cons, List.foldl_cons, seeOut, ih, List.append_assoc, List.singleton_append]
+  | nil => simp [reopen]
+  | cons l ls ih =>
+    simp only [List.map_cons, List.foldl_cons, seeOut, ih]
+    cases ls with
+    | nil => simp [reopen]
+    | cons l2 ls2 =>
+      simp only [reopen, List.isEmpty_cons, Bool.false_eq_true, if_false, List.append_assoc, List.singleton_append]
+      cases v.ended <;> cases h : (v.stage != 0) <;> simp_all
+
+theorem reopen_not_ended {v : View} (lines : List (List Str)) (h : v.ended = false) : reopen v lines = v := by
+  unfold reopen; split
+  · rfl
+  · cases v; simp_all
+
+theorem reopen_registered {v : View} (lines : List (List Str)) (h : v.stage ≠ 0) : reopen v lines = v := by
+  unfold reopen; split
+  · rfl
+  · have : (v.stage != 0) = true := by simpa using h
+    have h2 : (v.stage == 0) = false := by simpa using h
+    cases v; simp_all
+
+theorem reopen_nil (v : View) : reopen v [] = v := rfl
 
 theorem mem_flatten_of {ls : List (List Str)} {l : List Str} {c : Str} (hl : l ∈ ls) (hc : c ∈ l) : c ∈ ls.flatten :=
   List.mem_flatten.mpr ⟨l, hl, hc⟩
@@ -245,7 +271,7 @@ theorem pres_lsMore {cfg : Cfg} (hd : cfg.realDriver = false) {s : St} {v : View
     rw [seeStep_quiet { v with avail := v.avail ++ lsKeys caps } _ (by simpa using f2) ha, f1]
     simp only [List.foldl_nil]
     obtain ⟨e_c, e_p, _, _, _, _⟩ := bot_eq_mod_ls hb
-    refine .inr (.inr ⟨?_, ?_, ?_⟩)
+    refine inv_core ⟨?_, ?_, ?_⟩
     · rw [f3]; exact common_congr e_c (common_view (v := v) rfl hcm)
     · rw [f3]; exact caps_avail_grow hb hk (lsKeys_recorded hd caps s) hcp
     · rw [f3]
@@ -370,7 +396,7 @@ theorem pres_lsFinal {cfg : Cfg} (hd : cfg.realDriver = false) {s : St} {v : Vie
         rw [seeStep_quiet { v with lsOwed := false, avail := v.avail ++ lsKeys caps } _ f2 ha, f1]
         simp only [List.foldl_cons, List.foldl_nil, seeOut]
         rw [hfill] at hcp2
-        refine .inr (.inr ⟨?_, ?_, ?_⟩)
+        refine inv_core ⟨?_, ?_, ?_⟩
         · rw [f3]; exact common_congr (b := bot s) e_c (common_view (v := v) rfl hcm)
         · rw [f3]; exact caps_congr (b := { bot s1 with req := union (bot s1).req (arrangeCaps s1.ack (newCaps s1)) })
             (v := { v with avail := v.avail ++ lsKeys caps, reqs := v.reqs ++ [] }) rfl (by simp) rfl hcp2
@@ -384,9 +410,10 @@ theorem pres_lsFinal {cfg : Cfg} (hd : cfg.realDriver = false) {s : St} {v : Vie
       rw [if_neg hemp] at f1 f2 f3
       rw [requestCaps_eq] at f1 f2 f3
       simp only [ok, hq1, he1, List.nil_append] at f1 f2
-      rw [seeStep_quiet { v with lsOwed := false, avail := v.avail ++ lsKeys caps } _ f2 ha, f1, fold_capReq]
+      rw [seeStep_quiet { v with lsOwed := false, avail := v.avail ++ lsKeys caps } _ f2 ha, f1, fold_capReq,
+        reopen_not_ended (v := { v with lsOwed := false, avail := v.avail ++ lsKeys caps }) _ he]
       have hne : fill capReqWidth (arrangeCaps s1.ack (newCaps s1)) ≠ [] := by simpa using hemp
-      refine .inr (.inr ⟨?_, ?_, ?_⟩)
+      refine inv_core ⟨?_, ?_, ?_⟩
       · rw [f3]; exact common_congr (b := bot s) e_c (common_view (v := v) rfl hcm)
       · rw [f3]; exact caps_congr (b := { bot s1 with req := union (bot s1).req (arrangeCaps s1.ack (newCaps s1)) })
           (v := { v with avail := v.avail ++ lsKeys caps, reqs := v.reqs ++ fill capReqWidth (arrangeCaps s1.ack (newCaps s1)) })
@@ -586,7 +613,7 @@ theorem pres_ackNak {cfg : Cfg} (hd : cfg.realDriver = false) {s : St} {v : View
               have hmem : ∀ x ∈ m :: r, x ∈ s.saslNext := fun x hx => by
                 have : x ∈ filteredNext (ackNakSt isAck a s).saslNext v0 := by rw [hfn]; exact hx
                 exact b10 ▸ filteredNext_sub this
-              refine .inr (.inr ⟨⟨?_, ?_, ?_⟩, ?_, ?_⟩)
+              refine inv_core ⟨⟨?_, ?_, ?_⟩, ?_, ?_⟩
               · rw [f3]; intro x hx; exact hcm.mechsNext x (hmem x (List.mem_cons_of_mem _ hx))
               · rw [f3]; intro x hx
                 have : m = x := by simpa [bot] using hx
@@ -611,7 +638,7 @@ theorem pres_ackNak {cfg : Cfg} (hd : cfg.realDriver = false) {s : St} {v : View
               · simp only [hr, Bool.false_eq_true, if_false, ok, sendMsg, b2, b3, hq.1, hq.2, List.nil_append] at f1 f2 f3
                 rw [seeStep_quiet { v with reqs := reqsAfter a ws rest } _ f2 ha, f1]
                 simp only [List.foldl_cons, List.foldl_nil, seeOut]
-                refine .inr (.inr ⟨⟨?_, ?_, ?_⟩, ?_, ?_⟩)
+                refine inv_core ⟨⟨?_, ?_, ?_⟩, ?_, ?_⟩
                 · rw [f3]; intro x hx; simp [bot] at hx
                 · rw [f3]; intro x hx; simp [bot] at hx
                 · intro _; rw [f3]
@@ -635,7 +662,7 @@ theorem pres_ackNak {cfg : Cfg} (hd : cfg.realDriver = false) {s : St} {v : View
               simp only [ok, sendMsg, b2, b3, hq.1, hq.2, List.nil_append] at f1 f2
               rw [seeStep_quiet { v with reqs := reqsAfter a ws rest } _ f2 ha, f1]
               simp only [List.foldl_cons, List.foldl_nil, seeOut]
-              refine .inr (.inr ⟨?_, ?_, ?_⟩)
+              refine inv_core ⟨?_, ?_, ?_⟩
               · rw [f3]
                 refine common_congr (b := bot s) ?_ (common_view (v := v) rfl hcm)
                 cases isAck <;> simp [cfields, bot, ackNakSt, sendMsg, ok]
@@ -660,7 +687,7 @@ theorem pres_ackNak {cfg : Cfg} (hd : cfg.realDriver = false) {s : St} {v : View
             · exact List.mem_append_right _ h
             · have h' : c ∈ (reqsAfter a ws rest).flatten := h
               rw [hre] at h'; simp at h'
-          refine .inr (.inr ⟨?_, ?_, ?_⟩)
+          refine inv_core ⟨?_, ?_, ?_⟩
           · rw [f3, b1]; exact common_congr (b := bot s) rfl (common_view (v := v) rfl hcm)
           · rw [f3, b1]; exact hcp'
           · rw [f3, b1]
@@ -680,7 +707,7 @@ theorem pres_ackNak {cfg : Cfg} (hd : cfg.realDriver = false) {s : St} {v : View
     simp only [raise, b2, b3, hq.1, hq.2] at f1 f2 f3
     rw [seeStep_quiet { v with reqs := reqsAfter a ws rest } _ f2 ha, f1]
     simp only [List.foldl_nil]
-    refine .inr (.inr ⟨?_, ?_, ?_⟩)
+    refine inv_core ⟨?_, ?_, ?_⟩
     · rw [f3, b1]; exact common_congr (b := bot s) rfl (common_view (v := v) rfl hcm)
     · rw [f3, b1]; exact hcp'
     · rw [f3, b1]; exact phase_ackNak _ _ _ m1 m2 hneg hp
@@ -783,9 +810,31 @@ theorem pres_capNew {cfg : Cfg} (hd : cfg.realDriver = false) {s : St} {v : View
     rw [capNewFinal_eq s1 hf1] at f1 f2 f3
     simp only [hq1, he1, List.nil_append] at f1 f2
     rw [seeStep_quiet { v with avail := v.avail ++ lsKeys caps, lateNew := v.lateNew || v.auth.owed || v.ended } _ f2 ha, f1, fold_capReq]
+    by_cases hro : v.ended = true ∧ v.stage = 0 ∧ fill capReqWidth (arrangeCaps s1.ack (newCaps s1)) ≠ []
+    · -- the request goes out after CAP END, before the registration is complete: the server waits for another CAP END
+      refine .inr (.inr (.inl ?_))
+      obtain ⟨h1, h2, h3'⟩ := hro
+      have : (fill capReqWidth (arrangeCaps s1.ack (newCaps s1))).isEmpty = false := by
+        cases hfl : fill capReqWidth (arrangeCaps s1.ack (newCaps s1)) with
+        | nil => exact absurd hfl h3'
+        | cons _ _ => rfl
+      simp [reopen, this, h1, h2]
+    have hre : reopen { v with avail := v.avail ++ lsKeys caps, lateNew := v.lateNew || v.auth.owed || v.ended }
+        (fill capReqWidth (arrangeCaps s1.ack (newCaps s1))) =
+        { v with avail := v.avail ++ lsKeys caps, lateNew := v.lateNew || v.auth.owed || v.ended } := by
+      by_cases h1 : v.ended = true
+      · by_cases h2 : v.stage = 0
+        · have h3' : fill capReqWidth (arrangeCaps s1.ack (newCaps s1)) = [] := by
+            by_cases hx : fill capReqWidth (arrangeCaps s1.ack (newCaps s1)) = []
+            · exact hx
+            · exact absurd ⟨h1, h2, hx⟩ hro
+          rw [h3']; rfl
+        · exact reopen_registered _ h2
+      · exact reopen_not_ended _ (by simpa using h1)
+    rw [hre]
     have hkeysArr : ∀ x ∈ arrangeCaps s1.ack (newCaps s1), x ∈ keys (bot s1).ls := fun x hx => (mem_newCaps (mem_arrangeCaps hx)).1
     have hcp2 := caps_request (arrangeCaps s1.ack (newCaps s1)) hcp1 hkeysArr
-    refine .inr (.inr ⟨?_, ?_, ?_⟩)
+    refine inv_core ⟨?_, ?_, ?_⟩
     · rw [f3]; exact common_congr (b := bot s) e_c (common_view (v := v) rfl hcm)
     · rw [f3]
       exact caps_congr (b := { bot s1 with req := union (bot s1).req (arrangeCaps s1.ack (newCaps s1)) })
@@ -886,7 +935,7 @@ theorem pres_capDel {cfg : Cfg} {s : St} {v : View} (t caps n : Str)
   rw [d3, hq.2] at f2
   rw [seeStep_quiet { v with avail := v.avail.filter (fun c => !(delKeys caps).contains c) } _ f2 ha, f1]
   simp only [List.foldl_nil]
-  refine .inr (.inr ⟨?_, ?_, ?_⟩)
+  refine inv_core ⟨?_, ?_, ?_⟩
   · rw [f3, d1]; exact common_congr (b := bot s) rfl (common_view (v := v) rfl hcm)
   · rw [f3, d1]
     refine ⟨?_, ?_, ?_, hcp.ne⟩
